@@ -230,7 +230,7 @@ class Apply(Suite):
             cases.append(gen_apply_case(rng, pick_weighted(rng, APPLY_BUCKETS)))
         if tier == "thorough":
             # truncation at every byte of a few valid deltas
-            for _ in range(20):
+            for _ in range(8):
                 src_segs = rand_src(rng)
                 src = D.expand(src_segs)
                 delta, _, _ = valid_delta(rng, src, nops=4)
